@@ -14,6 +14,7 @@ import (
 	"path/filepath"
 	"regexp"
 	"sort"
+	"strconv"
 	"strings"
 	"sync"
 
@@ -233,8 +234,25 @@ func loadMutants(verif, id string) []mutant {
 // new open obligation. Never influences the verdict on /repo.
 func selftest(repo, verif, id string, baseOpen map[string]bool) map[string]any {
 	ms := loadMutants(verif, id)
+	// OBSA_MUTANT=<regexp> restricts the run to matching mutant names (authoring aid);
+	// OBSA_PAR=<n> bounds the number of concurrent subprocesses (default 4, ~1 GB each).
+	if pat := os.Getenv("OBSA_MUTANT"); pat != "" {
+		if re, err := regexp.Compile(pat); err == nil {
+			var sel []mutant
+			for _, m := range ms {
+				if re.MatchString(m.Name) {
+					sel = append(sel, m)
+				}
+			}
+			ms = sel
+		}
+	}
+	par := 4
+	if n, err := strconv.Atoi(os.Getenv("OBSA_PAR")); err == nil && n > 0 {
+		par = n
+	}
 	res := make([]mutantResult, len(ms))
-	sem := make(chan struct{}, 4)
+	sem := make(chan struct{}, par)
 	var wg sync.WaitGroup
 	for i, m := range ms {
 		wg.Add(1)
